@@ -262,3 +262,50 @@ def case_init_graph(n, dtype="int8"):
 
     return vc.Case(f"Stabilizer.__init__[graph,n={n},{dtype}]", Stabilizer.__init__, make, post, native_call=lambda st, g: Stabilizer(g), replay_args=replay_args,
                    freeze=lambda args: [("graph.adjacency_matrix", args[1].adjacency_matrix)])
+
+
+def case_init_circuit(n):
+    """Stabilizer(circuit): reads the tableau of qiskit's StabilizerState(circuit).clifford as the ASSUMED contract Q1 lays it out (rows n..2n-1 are the stabilizer
+    generators, X block in columns [0,n), Z block in [n,2n), sign in the last column): generator j = row n+j.  The qiskit objects are replaced by a stub whose
+    tableau is fully symbolic, so the indexing of the real constructor is verified for every tableau."""
+    from htstabilizer.stabilizer import Stabilizer
+    import qiskit
+    holder = {}
+
+    class _Cliff:
+        pass
+
+    class StubState:
+        _hv_symbolic_ok = True
+
+        def __init__(self, circuit):
+            self.num_qubits = n
+            self.clifford = _Cliff()
+            self.clifford.tableau = holder["tab"]
+
+    def make():
+        holder["tab"] = S.fresh_bits("t", (2 * n, 2 * n + 1), decl="bool")
+        qc = qiskit.QuantumCircuit(n)
+        return [Stabilizer.__new__(Stabilizer), qc], {}, True
+
+    def post(args, kw, out):
+        st = args[0]
+        tab = holder["tab"]
+        ok = all(hasattr(st, a) for a in ("R", "S", "phases", "num_qubits"))
+        cl = [("attributes", ok)]
+        if ok:
+            cl.append(("num_qubits", L.EQ(st.num_qubits, n)))
+            wantR = np.empty((n, n), dtype=object)
+            wantS = np.empty((n, n), dtype=object)
+            for q in range(n):
+                for j in range(n):
+                    wantR[q, j] = tab[n + j, q]
+                    wantS[q, j] = tab[n + j, n + q]
+            cl.append(("R_from_x_block", L.EQ(st.R, wantR)))
+            cl.append(("S_from_z_block", L.EQ(st.S, wantS)))
+            cl.append(("phases_from_last_column", L.EQ(st.phases, np.array([tab[n + j, 2 * n] for j in range(n)], dtype=object))))
+        return cl
+
+    c = vc.Case(f"Stabilizer.__init__[circuit-tableau-layout,n={n}]", Stabilizer.__init__, make, post, cover=False)
+    c.name_overrides = {"StabilizerState": StubState}
+    return c
